@@ -272,15 +272,21 @@ func c15Run(c *mon.Ctx) {
 			}
 			// normalisation
 			m := d1
-			if r.Intn(2) == 0 {
+			switch r.Intn(4) {
+			case 0:
 				m = d1 + float64(r.Intn(5))*2*piR
+			case 1: // anywhere within eight circumferences: the remainder lands on the far side as often as on the near side
+				m = r.Float64() * 16 * piR
+				c.Count("normalize_beyond_half")
+			case 2:
+				m = -r.Float64() * 6 * piR
 			}
 			nm := geo.NormalizeDistance(m)
 			if nn := geo.NormalizeDistance(nm); nn != nm {
 				c.Violation("normalize-idempotent", "NormalizeDistance is not idempotent", c15Case{What: "NormalizeDistance", Args: []float64{m}, Got: []float64{nm, nn}})
 			}
 			ha, hb := geo.DistanceToHaversine(m), geo.DistanceToHaversine(nm)
-			if math.Abs(ha-hb) > 1e-9*math.Max(1e-6, math.Max(ha, hb))+float64(int(m/(2*piR)))*1e-12 {
+			if math.Abs(ha-hb) > 1e-9*math.Max(1e-6, math.Max(ha, hb))+float64(int(math.Abs(m)/(2*piR)))*1e-12 {
 				c.Violation("normalize-haversine", "NormalizeDistance changes the haversine", c15Case{What: "NormalizeDistance", Args: []float64{m}, Got: []float64{nm, ha, hb}})
 			}
 			// semicircles
@@ -335,6 +341,6 @@ func init() {
 		Assumptions: []string{"reference: internal/sphere (atan2 of cross and dot products), accurate to < 10^-5 m (checked)", "tolerances as the statement gives them: max(1 mm, 1e-6 d); near the antipode the distance-from-haversine resolution (~0.13-0.3 m) is allowed for, as the statement's 'converts without loss' cannot be finer than one ulp of the haversine", "known finding F19 (destination within ~10 m of a pole) is matched with a magnitude bound of 0.5 m"},
 		Run:         c15Run,
 		Replay:      c15Replay,
-		MustSee:     []string{"bearing_direct_checked", "bearing_checked", "monotone_checked", "semicircle_checked", "object_distance_checked", "reference_residual_checked", "near_antipode_pairs"},
+		MustSee:     []string{"normalize_beyond_half", "bearing_direct_checked", "bearing_checked", "monotone_checked", "semicircle_checked", "object_distance_checked", "reference_residual_checked", "near_antipode_pairs"},
 	})
 }
